@@ -376,6 +376,31 @@ pub fn run(out: &mut Out, seed: u64, thorough: bool, replay: Option<&str>) {
             if ok && !got.iter().any(|r| r.contains(&want)) && writer != reader && !net.holders(writer, &hex(ih.as_bytes()), reader).is_empty() {
                 net.out.violation("C01", "put-then-get-miss", format!("announce_peer returned Ok on node {writer} but get_peers on node {reader} yielded {:?}", got));
             }
+            // implied port: the storing nodes record the UDP source port of the announcer
+            let ih2 = Id::from_bytes(rng.id20()).expect("id");
+            let c = net.api(writer, format!("announce ih={} port=implied", hex(ih2.as_bytes())));
+            net.settle(20 * SEC, 10 * MS);
+            let ok = net.results(writer, c).first().map(|r| r.contains(":ok:")).unwrap_or(false);
+            let g = net.api(reader, format!("get_peers ih={}", hex(ih2.as_bytes())));
+            net.settle(20 * SEC, 10 * MS);
+            let got = net.results(reader, g);
+            let want = format!("{}:6881", u32::from(ip_of(writer, public)));
+            if ok && !got.iter().any(|r| r.contains(&want)) && writer != reader && !net.holders(writer, &hex(ih2.as_bytes()), reader).is_empty() {
+                net.out.violation("C01", "put-then-get-miss", format!("announce_peer (implied port) returned Ok on node {writer} but get_peers on node {reader} yielded {:?}, not {want}", got));
+            }
+            // signed announcement
+            let ih3 = Id::from_bytes(rng.id20()).expect("id");
+            let call = sannounce_call(&ih3, 5);
+            let sig_hex = call.split(" sig=").nth(1).unwrap_or("").to_string();
+            let c = net.api(writer, call);
+            net.settle(20 * SEC, 10 * MS);
+            let ok = net.results(writer, c).first().map(|r| r.contains(":ok:")).unwrap_or(false);
+            let g = net.api(reader, format!("get_speers ih={}", hex(ih3.as_bytes())));
+            net.settle(20 * SEC, 10 * MS);
+            let got = net.results(reader, g);
+            if ok && !sig_hex.is_empty() && !got.iter().any(|r| r.contains(&sig_hex)) && writer != reader && !net.holders(writer, &hex(ih3.as_bytes()), reader).is_empty() {
+                net.out.violation("C01", "put-then-get-miss", format!("announce_signed_peer returned Ok on node {writer} but get_signed_peers on node {reader} yielded {:?}", got));
+            }
         }
         // ---- crash every acknowledging server but one, read again from a third node
         if servers >= 3 {
